@@ -580,6 +580,8 @@ void f_unique_mapping (void) {
     {
       push_svalue (v->item + size);
       sv = call_efun_callback (&ftc, 1);
+      if (!sv)
+        sv = &const0;		/* the callback does not exist (or its object is gone) */
       i = (oi = (unsigned short)svalue_to_int (sv)) & mask;
       if ((uptr = table[i]))
         {
